@@ -3,6 +3,7 @@ package main
 import (
 	"fmt"
 	"math/big"
+	"strings"
 )
 
 type bigInt = big.Int
@@ -45,6 +46,9 @@ func (ex *Exec) stagedPost(en *Clause, g *Term, groups []*SoftGroup, extra []*Te
 		o.Props = en.Props
 		o.Hyps = hyps
 		o.Lemmas = groups
+		if strings.HasSuffix(label, "/identity") {
+			o.TimeMul = 3
+		}
 		return o
 	}
 	facts := append(ex.hyps(), extra...)
@@ -75,6 +79,30 @@ func (ex *Exec) stagedPost(en *Clause, g *Term, groups []*SoftGroup, extra []*Te
 			Eq(A, Add(B2, Mul(k, M))),
 			Eq(A, Add(B2, Mul(Sub(k, Rc), M))),
 		)
+		// case split on the final conditional subtraction (the only if-then-else in the result limbs)
+		conds := map[*Term]bool{}
+		var walk func(t *Term)
+		seen := map[*Term]bool{}
+		walk = func(t *Term) {
+			if seen[t] {
+				return
+			}
+			seen[t] = true
+			if t.op == "ite" {
+				conds[t.args[0]] = true
+			}
+			for _, a := range t.args {
+				walk(a)
+			}
+		}
+		walk(A)
+		if len(conds) == 1 {
+			for c := range conds {
+				mk("/identity", goal, append(append([]*Term{}, facts...), c), "Montgomery identity (case: no final subtraction), witness k = quotient words: "+en.Text)
+				mk("/identity", goal, append(append([]*Term{}, facts...), Not(c)), "Montgomery identity (case: final subtraction), witness k = quotient words: "+en.Text)
+			}
+			return
+		}
 		mk("/identity", goal, facts, "Montgomery identity with witness k = quotient words: "+en.Text)
 		return
 	}
